@@ -67,6 +67,22 @@ def check_pair(chk, ex, A, B, phi=(True, True)):
                     chk.prove("%s:accepted=>compatible#%d" % (name, n_ret), pc, z3.Not(inc), tag="G", found=mfound(pc, z3.Not(inc)))
                     ks = [e for e in eff if e[0] == "kernel"]
                     ok = len(ks) == 1 and ks[0][1] == MERGE_KERNEL[A]
+                    if not ks and not muts:
+                        # a path that returns without touching anything is fine when it is taken only
+                        # for an `other` that has seen nothing at all: n_added() == 0 and n_records() == 0
+                        # (then its table is all zero - class invariant of the add paths, assumed)
+                        onr = out.state.objs[oref.oid]["fields"].get("n_added_records")
+                        if isinstance(onr, Arr):
+                            e0, e1 = z3.Int("elem_%s[0]" % onr.data), z3.Int("elem_%s[1]" % onr.data)
+                            s_ = z3.Solver()
+                            s_.set("rlimit", 5_000_000)
+                            for f_ in pc:
+                                s_.add(f_)
+                            s_.add(z3.Not(z3.And(e0 == 0, e1 == 0)))
+                            if s_.check() == z3.unsat:
+                                chk.assumptions.add("a sketch with n_added() == 0 and n_records() == 0 has an all-zero table (class invariant of the add paths, not proved): merge() may skip it")
+                                chk.rows.append({"name": "%s:untouched-only-for-an-empty-other#%d" % (name, n_ret), "kind": "G", "backend": "pyexec+z3", "result": "proved", "instances": 1, "seconds": 0, "units": 0})
+                                continue
                     chk.rows.append({"name": "%s:calls-merge-kernel#%d" % (name, n_ret), "kind": "G", "backend": "pyexec", "result": "proved" if ok else "refuted", "instances": 1, "seconds": 0, "units": 0})
                     if not ok:
                         chk.violation("%s:calls-merge-kernel" % name, {"verdict": "refuted", "detail": [e[:2] for e in ks]}, replay_search(chk, A, B))
